@@ -141,16 +141,44 @@ def includeFile (h : Handler) : Nat → String → State → Except Err State
       if st.once.contains name then runFile (includeFile h fuel) name st []
       else runFile (includeFile h fuel) name st lines
 
-/-- an API-level define: the value is lexed without a location and used as the body as it is -/
-def apiMacro (d : String × List Tok) : Macro :=
-  { name := d.1, isFunction := false, numParams := 0, body := d.2.map (⟨·, false⟩) }
+/-- An API-level define `(name, value)`: `preprocess_initial_file` registers the text `name value` as a file of its
+own (`<define>`), lexes it with that location and without a trailing line end, and hands the tokens to
+`Macro::parse`.  Both parts are given here as the tokens they lex to (a name such as `F(x)` is the four tokens
+`F ( x )`, so it defines a function-like macro); the blank is the one `format!("{name} {value}")` inserts. -/
+structure ApiDefine where
+  name : List Tok
+  value : List Tok
+  deriving DecidableEq, Repr, Inhabited
+
+def located (ts : List Tok) : List PTok := ts.map (⟨·, true⟩)
+
+/-- the tokens handed to `Macro::parse` -/
+def apiCommand (d : ApiDefine) : List PTok := located d.name ++ ⟨.ws, true⟩ :: located d.value
+
+/-- "Add initial macros": parse, remove an earlier macro of that name, push -- the `#define` arm -/
+def initialMacros : List Macro → List ApiDefine → Except Err (List Macro)
+  | ms, [] => .ok ms
+  | ms, d :: ds =>
+    match doDefine ms (apiCommand d) with
+    | .error e => .error e
+    | .ok ms' => initialMacros ms' ds
+
+/-- `preprocess_initial_file` on the lines of the entry file, `inc` = processing of an included file -/
+def runInitial (inc : String → State → Except Err State) (entry : String) (api : List ApiDefine)
+    (lines : List Line) : Except Err State :=
+  match initialMacros [] api with
+  | .error e => .error e
+  | .ok ms => runFile inc entry { macros := ms, out := [], once := [] } lines
 
 /-- `preprocess`: load the entry file, install the initial defines, run -/
-def preprocess (h : Handler) (fuel : Nat) (api : List (String × List Tok)) (entry : String) :
+def preprocess (h : Handler) (fuel : Nat) (api : List ApiDefine) (entry : String) :
     Except Err (List PTok) :=
-  match includeFile h fuel entry { macros := api.map apiMacro, out := [], once := [] } with
-  | .error e => .error e
-  | .ok st => .ok st.out
+  match h entry with
+  | none => .error (.failedToFindFile entry)
+  | some lines =>
+    match runInitial (includeFile h fuel) entry api lines with
+    | .error e => .error e
+    | .ok st => .ok st.out
 
 /-- `prepare_tokens`: drop white space (`MacroArg` cannot survive; its assertion is a panic site) -/
 def prepare (ts : List PTok) : Except Err (List Tok) :=
